@@ -9,9 +9,9 @@ def register(prop, J):
               "supplied / omitted defaulted fields decoded through the JSON, ROR2 and untyped readers; every case is non-trivial; "
               "distinct by (reader, type, value)",
          jobs=[
-             J("defaults-v2", "v2", "codecprops", "^TestC13", checks=(12000, 600000), shards=(4, 16), prepare="prepare_codec",
+             J("defaults-v2", "v2", "codecprops", "^TestC13", checks=(12000, 4800000), shards=(4, 16), prepare="prepare_codec",
                extra_pkgs=["dyn", "gendrv"], timeout=(900, 3000)),
-             J("defaults-v1", "v1", "codecprops", "^TestC13", checks=(8000, 300000), shards=(4, 16), prepare="prepare_codec",
+             J("defaults-v1", "v1", "codecprops", "^TestC13", checks=(8000, 2400000), shards=(4, 16), prepare="prepare_codec",
                extra_pkgs=["dyn", "gendrv"], timeout=(900, 3000)),
          ],
          level_text="default constructors enumerated completely for the corpus and compared with the reference reading of each "
